@@ -32,6 +32,7 @@ type Program struct {
 	AllowedErr []string // allow-listed type errors actually seen
 	RepoDir    string
 
+	Overlay   map[string][]byte
 	entryLS   map[*ssa.Function]lockSet
 	reach     map[*ssa.Function]bool
 	phiHook   func(*ssa.Phi) ssa.Value
@@ -79,7 +80,7 @@ func loadProgram(repo string, overlay map[string][]byte) *Program {
 	if len(roots) == 0 {
 		fatalf("no packages loaded from %s", repo)
 	}
-	p := &Program{Fset: fset, Pkgs: map[string]*packages.Package{}, SSAPkg: map[string]*ssa.Package{}, RepoDir: repo,
+	p := &Program{Fset: fset, Pkgs: map[string]*packages.Package{}, SSAPkg: map[string]*ssa.Package{}, RepoDir: repo, Overlay: overlay,
 		domCache: map[*ssa.Function]*domInfo{}, termCache: map[termKey]*Term{}}
 
 	var order []*packages.Package // dependency order (deps first)
